@@ -51,6 +51,7 @@ type Config struct {
 	Responses [][]string // declared response sets, one path /r<i> each
 	AuthCtor  string     // "" = operations are not secured
 	AuthRealm string
+	NoDocs    bool // serve through Context.RoutesHandler (no spec / docs middlewares in front)
 }
 
 type modeInfo struct {
@@ -306,7 +307,12 @@ func buildEnvWith(cfg Config, doc *loads.Document, regs []opReg) *env {
 	}
 	e.api = api
 	e.ctx = middleware.NewContext(doc, api, nil)
-	e.h = e.ctx.APIHandler(nil) // also installs the default router in the context
+	if cfg.NoDocs {
+		e.h = e.ctx.RoutesHandler(nil)
+	} else {
+		e.h = e.ctx.APIHandler(nil)
+	}
+	// either call also installs the default router in the context (the typed entry point needs it)
 	return e
 }
 
